@@ -52,18 +52,18 @@ def matrix() -> List[Tuple[str, Optional[str], Optional[str], str]]:
 
 
 def all_types_history(rng: Any, asset: str = "AAA") -> Dict[str, Any]:
-    b = families.HB(asset=asset, exchanges=("Coinbase", "Kraken"), holders=("Alice", "Bob"))
+    b = families.HB(asset=asset, exchanges=("Coinbase", "Coinbase_Pro"), holders=("Pro_Bob", "Bob"))
     t = families.T(rng.randint(2016, 2019), rng.randint(1, 12), rng.randint(1, 28), 10)
     for ttype in ALL_IN_TYPES:
-        b.acquire(t, rng.choice((2, 5, 10)), rng.randint(50, 500), ttype=ttype, ex=rng.choice(b.exchanges), ho="Alice")
+        b.acquire(t, rng.choice((2, 5, 10)), rng.randint(50, 500), ttype=ttype, ex=rng.choice(b.exchanges), ho="Pro_Bob")
         t += timedelta(days=rng.randint(10, 90))
-    b.move(t, 3, "2.99", 120, (b.rows[0]["ex"], "Alice"), ("Kraken", "Bob"))
+    b.move(t, 3, "2.99", 120, (b.rows[0]["ex"], "Pro_Bob"), ("Coinbase_Pro", "Bob"))
     t += timedelta(days=20)
-    b.move(t, 1, 1, None, ("Kraken", "Bob"), ("Coinbase", "Bob"))
+    b.move(t, 1, 1, None, ("Coinbase_Pro", "Bob"), ("Coinbase", "Bob"))
     for ttype in OUT_TYPES:
         t += timedelta(days=rng.randint(10, 120))
         source = rng.choice([r for r in b.rows if r["t"] == "IN"])
-        b.dispose(t, "0.5", rng.randint(50, 500), ttype=ttype, ex=source["ex"], ho="Alice", cfee="0.01" if ttype not in ("FEE",) else "0")
+        b.dispose(t, "0.5", rng.randint(50, 500), ttype=ttype, ex=source["ex"], ho="Pro_Bob", cfee="0.01" if ttype not in ("FEE",) else "0")
     return b.done(rng, shuffle=True)
 
 
